@@ -157,7 +157,19 @@ def run_harness(binp, sub, tier, seed, variant, shard=None, timeout=3600, extra_
         if rc2 is not None and rc2 < 0:
             return {"crash": True, "signal": -rc2, "variant": variant, "engine": "native", "sub": sub, "cmd": " ".join(cmd),
                     "last_case": last[-1] if last else "(unknown)", "stderr_tail": (err2 or "")[-800:]}
-        raise Inconclusive("harness %s died with signal %d once and did not reproduce" % (tag, -rc))
+        # memory corruption often only bites with the original thread schedule: repeat the original command
+        again = 0
+        for _ in range(3):
+            rc3, _o3, err3 = sh(cmd, timeout=timeout, env=extra_env)
+            if rc3 is not None and rc3 < 0 and -rc3 in {int(s) for s in CRASH_SIGNALS}:
+                again += 1
+                if again >= 2:
+                    return {"crash": True, "signal": -rc3, "variant": variant, "engine": "native", "sub": sub, "cmd": " ".join(cmd),
+                            "last_case": "(multi-threaded run of `%s`; killed by a fatal signal in 3 of at most 4 runs, not in the single-threaded traced run)" % " ".join(cmd[1:cmd.index("--out")]), "stderr_tail": (err3 or "")[-800:]}
+        # a crash that does not repeat decides nothing: the other engines of the check still run, and the
+        # check ends INCONCLUSIVE unless one of them reports a violation
+        return {"flaky_crash": True, "signal": -rc, "variant": variant, "engine": "native", "sub": sub, "cmd": " ".join(cmd),
+                "reason": "harness %s died with signal %d (%d of 4 multi-threaded runs) and did not reproduce single-threaded" % (tag, -rc, 1 + again)}
     raise Inconclusive("harness %s exited with status %s: %s" % (tag, rc, (err or "")[-600:].replace("\n", " | ")))
 
 
@@ -330,8 +342,13 @@ class Outcome:
         self.exhaustive = []
         self.notes = []
         self.assumptions = []
+        self.inconclusive = []  # reasons that leave the verdict open unless a violation was observed elsewhere
 
     def add_harness(self, j, group=None, sig_filter=None):
+        if j.get("flaky_crash"):
+            self.inconclusive.append(j["reason"])
+            self.notes.append("inconclusive engine: " + j["reason"])
+            return
         if j.get("crash"):
             self.failures.append({"sig": "process-crash:signal-%d" % j["signal"], "api": j["sub"], "input": j["last_case"], "got": "process killed by signal %d while monitoring" % j["signal"],
                                   "want": "the workload runs to completion", "engine": j["engine"], "variant": j["variant"], "sub": j["sub"], "cmd": j["cmd"], "detail": j.get("stderr_tail", "")})
@@ -421,7 +438,9 @@ class Outcome:
         total_nt = sum(self.nontrivial.values())
         wall = time.monotonic() - self.t0
         inconclusive = None
-        if rc == 0 and (self.evals < min_evals or total_nt < 2):
+        if rc == 0 and self.inconclusive:
+            inconclusive = "; ".join(self.inconclusive[:3])
+        elif rc == 0 and (self.evals < min_evals or total_nt < 2):
             inconclusive = "observed too little (evaluations=%d, distinct_nontrivial=%d)" % (self.evals, total_nt)
         ev = {
             "property_id": self.prop,
@@ -449,6 +468,8 @@ class Outcome:
         with open(os.path.join(EVID, "%s.json" % self.prop), "w") as fp:
             json.dump(ev, fp, indent=1, ensure_ascii=False)
         if inconclusive:
+            # nothing was decided: leave no evidence file that could be read as "held"
+            os.remove(os.path.join(EVID, "%s.json" % self.prop))
             print("INCONCLUSIVE property=%s reason=%s" % (self.prop, inconclusive))
             return 2
         if rc == 0:
